@@ -67,9 +67,15 @@ def gen_schema(rng, idx, force_service=True):
     other = rng.choice(["c18other", pkg + ".sub", "alpha.zeta" if not pkg.startswith("alpha") else "alpha.beta", "shared.lib"])
     if other == pkg:
         other = "c18other"
+    # the other package also defines types with the SAME NAMES as the main package (Color, Msg1) and uses them in
+    # repeated / optional / map positions: `List["Color"]` is then the same annotation text in two generated modules
+    # that are imported into one process, and must still denote each module's own class
     other_proto = ['syntax = "proto3";', "package %s;" % other,
                    "enum Mode { MODE_UNSPECIFIED = 0; MODE_NEG = -2; MODE_ON = 1; }",
-                   "message Shared { int32 x = 1; string s = 2; Mode mode = 3; }"]
+                   "enum Color { COLOR_ZERO = 0; COLOR_OTHER_A = 1; COLOR_OTHER_B = 2; COLOR_OTHER_C = 5; COLOR_OTHER_D = -1; COLOR_OTHER_E = -7; }",
+                   "message Msg1 { string other_only = 1; }",
+                   "message Shared { int32 x = 1; string s = 2; Mode mode = 3; repeated Color colors = 4; optional Msg1 twin = 5; "
+                   "map<string, Color> cmap = 6; repeated Msg1 twins = 7; }"]
     enums = []
     for ei in range(rng.randint(1, 2)):
         name = ["Color", "Kind"][ei]
